@@ -61,14 +61,6 @@ func TestC51(t *testing.T) {
 		"bimap: Insert whose key or value was already present; list: a move/remove/insert-relative operation on a list of ≥ 3 elements. Distinct by hash of the operation trace.")
 
 	structures := []string{"orderedmap", "persistent", "intervalst", "bimap", "list"}
-	reproFD1 := func() bool {
-		var m orderedmap.OrderedMap[int, int]
-		return m.ForAnyKey(func(int) bool { return true })
-	}
-	if rec.Known("FD1") {
-		rec.ReportKnown("FD1", reproFD1())
-	}
-
 	rapid.Check(t, func(rt *rapid.T) {
 		which := rapid.SampledFrom(structures).Draw(rt, "structure")
 		tr := &c51trace{h: evid.Hash(which)}
@@ -217,7 +209,6 @@ func c51OrderedMap(rt *rapid.T, rec *evid.Rec, tr *c51trace) {
 	val := 0
 	nextVal := func() int { val++; return val }
 	pick := func(rt *rapid.T) int { return rapid.IntRange(0, 1).Draw(rt, "map") }
-	knownFD1 := rec.Known("FD1")
 
 	compare := func(rt *rapid.T, i int) {
 		m, mod := maps[i], models[i]
@@ -365,10 +356,7 @@ func c51OrderedMap(rt *rapid.T, rec *evid.Rec, tr *c51trace) {
 			if got := maps[i].ForAllKeys(pred); got != all {
 				rt.Fatalf("ForAllKeys(k<%d) = %v, model %v over %v", c, got, all, models[i].items)
 			}
-			if !initialized[i] && knownFD1 {
-				rec.Excluded("FD1")
-				return
-			}
+			// (FD1, fixed in a6ea994: a zero-value map used to answer true here)
 			if got := maps[i].ForAnyKey(pred); got != anyk {
 				rt.Fatalf("ForAnyKey(k<%d) = %v, model %v over %v (map initialised: %v)", c, got, anyk, models[i].items, initialized[i])
 			}
